@@ -30,6 +30,13 @@ func (b *Bounds) Clone() *Bounds {
 
 // Extend extends b to include geometry g.
 func (b *Bounds) Extend(g T) *Bounds {
+	if gc, ok := g.(*GeometryCollection); ok {
+		// a collection has no flat coordinates of its own: extend by each member, recursively
+		for _, member := range gc.geoms {
+			b.Extend(member)
+		}
+		return b
+	}
 	b.extendLayout(g.Layout())
 	if b.layout == XYZM && g.Layout() == XYM {
 		return b.extendXYZMFlatCoordsWithXYM(g.FlatCoords(), 0, len(g.FlatCoords()))
